@@ -759,6 +759,32 @@ theorem reported_name_denotes_one_symbol {reserved : List String} {src : NameSrc
   · rw [has, hbs]; intro e; apply hne; cases e; rfl
 
 open RsslVerif.Model.MetaFront RsslVerif.Lemmas.MetaFront RsslVerif.Model in
+/-- `entry_named_and_defined` for arbitrary names (HLSL): when the emitted function table takes its names from
+    the name map — as the exporter does for the definitions it prints and for `entry_point_names` alike — the
+    reported entry point is the emitted name of the stage's entry function and **no other** function the map
+    places in the same scope is emitted under that name, whether the source name was reserved, overloaded or
+    equal to another function's generated name. -/
+theorem hlsl_entry_point_unambiguous {reserved : List String} {src : NameSrc} {names : List Names.Named}
+    (h : Names.build reserved src.input = .ok names) {fdefs : List FuncDef}
+    (hf : ∀ (i : Nat) (f : FuncDef), fdefs[i]? = some f → leaf names .func i = .ok f.emitted)
+    {s : StageDef} {r : StageOut} (hr : reportStage false fdefs s = some r) :
+    (∃ f, fdefs[s.entry]? = some f ∧ r.entryPoint = f.emitted) ∧
+    ∀ (j : Nat) (g : FuncDef), fdefs[j]? = some g → j ≠ s.entry →
+      (Names.lookup names ⟨.func, j⟩).map (·.scope) = (Names.lookup names ⟨.func, s.entry⟩).map (·.scope) →
+      g.emitted ≠ r.entryPoint := by
+  unfold reportStage at hr
+  cases hfe : fdefs[s.entry]? with
+  | none => simp [hfe] at hr
+  | some f =>
+    simp only [hfe, Option.some.injEq] at hr
+    subst hr
+    refine ⟨⟨f, rfl, by simp⟩, ?_⟩
+    intro j g hg hj hscope
+    simp only [Bool.false_eq_true, if_false]
+    exact reported_name_denotes_one_symbol h (hf j g hg) (hf s.entry f hfe) (by decide) (by decide)
+      (by intro e; apply hj; cases e; rfl) hscope
+
+open RsslVerif.Model.MetaFront RsslVerif.Lemmas.MetaFront RsslVerif.Model in
 /-- no reported name is a reserved word of the target language -/
 theorem reported_name_not_reserved {reserved : List String} {src : NameSrc} {names : List Names.Named}
     (h : Names.build reserved src.input = .ok names) {k : Names.Kind} {i : Nat} {n : String}
@@ -805,6 +831,27 @@ theorem same_leaf_name_in_two_namespaces_witness :
                      (RsslVerif.Model.MetaFront.leaf names .global 1).toOption)) =
       some (some "g_t", some "g_t") := by
   decide +kernel
+
+/-! Non-vacuity: a block with reversed stage properties is accepted and recorded in property order; overloads
+    `a`, `a` next to an entry point `a_0` (the former defect) get three different names (the entry point keeps `a_0`:
+    names that can be kept are claimed first); a compute stage next to
+    another stage and a second pipeline of the same name are refused. -/
+open RsslVerif.Model.MetaFront in
+example : (parsePipeline [⟨"h", [], true, false⟩, ⟨"vs", [], true, false⟩, ⟨"ps", [(4, 2, 1)], true, false⟩] ["P0"]
+      ⟨"P1", [(.Pixel, "ps"), (.Vertex, "vs")], some 2, true⟩).toOption =
+    some ⟨"P1", 2, [⟨.Pixel, 2, some (4, 2, 1)⟩, ⟨.Vertex, 1, none⟩], true⟩ := by decide
+
+open RsslVerif.Model.MetaFront in
+example : (parsePipeline [⟨"cs", [(8, 4, 1)], true, false⟩, ⟨"ps", [], true, false⟩] []
+      ⟨"P0", [(.Compute, "cs"), (.Pixel, "ps")], none, false⟩).toOption = none ∧
+    (parsePipeline [⟨"cs", [(8, 4, 1)], true, false⟩] ["P0"] ⟨"P0", [(.Compute, "cs")], none, false⟩).toOption = none ∧
+    (parsePipeline [⟨"cs", [(8, 4, 1)], true, false⟩, ⟨"cs", [], true, false⟩] [] ⟨"P0", [(.Compute, "cs")], none, false⟩).toOption = none := by
+  decide
+
+example : (RsslVerif.Model.Names.build hlslReserved
+      (RsslVerif.Model.MetaFront.NameSrc.input { nss := [], structs := [], globals := [], funcs := [(none, "a"), (none, "a"), (none, "a_0")] })).toOption.map
+      (fun names => [0, 1, 2].map fun i => (RsslVerif.Model.MetaFront.leaf names .func i).toOption) =
+    some [some "a_1", some "a_2", some "a_0"] := by decide +kernel
 
 /-! Non-vacuity of the hypotheses above. -/
 example : hlslAnnot (paramsFor .HlslForVulkan true) (.global "g" (some 1) false (some .Texture2D) (.sized 3) false .extern)
